@@ -114,7 +114,7 @@ def scripts_crash(tier, rng, prefix):
                             flush_prob=(2, 3), weights=dict(append=45, purge=6, truncate=4))
     from props import blocked_rotation_scripts
     blocked = blocked_rotation_scripts([(f"x{i}", b) for i, b in enumerate(bases[: nb // 4])], rng, "t")
-    bases += [[l for l in b if l not in ("flush 9997", "stat", "dir")] for _, b in blocked]
+    bases += [[l for l in b if l not in ("stat", "dir")] for _, b in blocked]  # ends with flush 9997, widle
     # crash points: after any line past `open`; and, for some of them, every amount of further
     # worker progress (0..k released steps) so that the crash falls between any two of its calls
     named = []
@@ -213,6 +213,29 @@ def oracle_c03(script, ig, mg):
     if got not in cands:
         return [("recovered-state-is-no-acknowledged-prefix",
                  {"group": i, "recovered": got, "allowed": rng_line, "candidates": cands[:6]})]
+    # the lower bound from the implementation's OWN acknowledgements: every flush whose callback
+    # reported success on the implementation covers the writes issued before it
+    flushed = {}
+    for g in mg[:i]:
+        for x in g.info:
+            if x.startswith("flushed "):
+                t = x.split()
+                flushed[t[1]] = int(t[2])
+    acked = 0
+    for g in ig[:i]:
+        for e in g.evs:
+            t = e.split()
+            if len(t) == 4 and t[1] == "cb" and t[3] == "ok" and t[2] in flushed:
+                acked = max(acked, flushed[t[2]])
+    numbered = {}
+    for s_ in mg[i].spec:
+        if s_.startswith("cand "):
+            p_ = s_.split(" ", 2)
+            numbered.setdefault(p_[2], int(p_[1]))
+    best = max(int(p_.split(" ", 2)[1]) for p_ in mg[i].spec if p_.startswith("cand ") and p_.split(" ", 2)[2] == got)
+    if best < acked:
+        return [("acknowledged-write-forgotten-after-crash",
+                 {"group": i, "recovered_prefix": best, "acknowledged_prefix": acked, "recovered": got})]
     return oracle_spec_equal({"st", "read", "ret"}, skip_d2=True)(script, ig, mg)
 
 
